@@ -56,7 +56,8 @@ pub fn float_renderer(cx: &mut Ctx, rule: &str) {
             sm::for_each_expr_in_block(&f.block, |e| {
                 if let syn::Expr::If(i) = e {
                     let t = sm::tsc(&i.cond);
-                    if t.contains("exponent") && cond.is_none() && !t.contains("let") {
+                    // the decision between the two notations: a pure comparison of one integer local with literals
+                    if (t.contains("<16") || t.contains("16<") || t.contains("<=15") || t.contains("-5<") || t.contains("-4<=")) && cond.is_none() && !t.contains("let") && !t.contains('(') {
                         cond = Some((*i.cond).clone());
                     }
                 }
@@ -68,7 +69,9 @@ pub fn float_renderer(cx: &mut Ctx, rule: &str) {
                     let mut bad = vec![];
                     for ex in -8i128..=20 {
                         let mut m = Machine::new(&methods);
-                        m.set("exponent", V::Int(ex));
+                        for id in sm::idents_in(&c) {
+                            m.set(&id, V::Int(ex));
+                        }
                         let want = (-4..16).contains(&ex);
                         match m.eval(&c) {
                             Ok(V::Bool(b)) if b == want => cx.ok_trivial(rule),
@@ -109,7 +112,9 @@ pub fn float_renderer(cx: &mut Ctx, rule: &str) {
             let d_exp: Option<String> = t.split("format!(\"{:.*e}\",").nth(1).and_then(|r| r.split(",magnitude)").next()).map(|s| s.to_string());
             // exponent branch: the first decimal_point_or_empty after the `e` selection
             let calls: Vec<String> = t.match_indices("decimal_point_or_empty(").map(|(i, _)| t[i + 23..].split(",alternate_form)").next().unwrap_or("").to_string()).collect();
-            let fixed_ok = t.contains("letprecision=((precisionasi64)-1-exponent)asusize;letmagnitude=format!(\"{magnitude:.precision$}\");") && calls.get(1).map(|s| s.as_str()) == Some("precision");
+            // fixed branch: `let D = ((precision as i64) - 1 - exponent) as usize; let _ = format!("{magnitude:.D$}"); .. decimal_point_or_empty(D, ..)`
+            let re = regex::Regex::new(r#"let(\w+)=\(\(precisionasi64\)-1-(\w+)\)asusize;let\w+=format!\("\{magnitude:\.(\w+)\$\}"\);"#).unwrap();
+            let fixed_ok = re.captures(&t).map_or(false, |c| c[1] == c[3] && calls.get(1).map(|s| s.as_str()) == Some(&c[1]));
             let exp_ok = d_exp.is_some() && calls.first() == d_exp.as_ref() && calls.len() == 2;
             if exp_ok {
                 cx.ok(rule, &format!("format_general, exponent notation: {} fractional digits rendered and used for the point", d_exp.clone().unwrap_or_default()));
